@@ -12,7 +12,7 @@ from vf import lattice as lt
 from vf import refmodel as rm
 from vf import x_c09 as x
 from vf.core import Cell, Ctx, Violation
-from vf.x_c09 import ENTS, Frame, fl
+from vf.x_c09 import ENTS, Frame
 
 warnings.simplefilter("ignore")
 
@@ -49,7 +49,13 @@ ASSUMPTIONS = [
     "absolute TOL = 1e-7 (cases whose smallest arc or vertex distance would come closer are counted, not judged)",
     "default origins (origin=None) are used only for classes that inherit ElementBase.rotate/scale (documented: the "
     "entity's center, read through the public .center just before the step) and for mirror (documented: [0, 0, 0])",
-    "block numbering after mirror: kept or bottom/top swapped are both accepted; return values of the methods are not used",
+    "block numbering after mirror: kept or bottom/top swapped are both accepted (handedness of the result is C11's "
+    "business); return values of the methods are not used",
+    "a default origin in the middle of a transform([...]) list is the image of the center read before the call under "
+    "the earlier elements (centers are means or fixed points of the entity); joints (center = a top-face corner, which "
+    "changes with mirror) get such steps in a call of their own, with the center read just before",
+    "generated Angle edges have their axis perpendicular to the chord (a rotation about an axis, as Revolve makes them); "
+    "generated 3-point arcs keep the third point within 0.3..0.7 of the chord (sagitta 0.08..0.6 chord)",
     "AnalyticCurve with a user function is excluded (the library documents that it cannot be transformed); shear is "
     "not part of the statement",
 ]
@@ -89,14 +95,17 @@ def mesh_case(ent: x.Ent, tkind: str):
     return st.fixed_dictionaries({"ent": ent.strategy, "tf": x.tf_list(tkind, ent.default_origin_ok)})
 
 
+BYPASS = "transform-list-bypasses-own-overrides"
+
+
 def mark_bypass(ent: x.Ent, tf, discs) -> None:
-    """ElementBase.transform() works on the receiver's parts, so the receiver's own overrides are skipped: an Angle
-    that is itself given a transformation list has its axis moved like a point (inside a Face or Operation the
-    overrides are used)."""
+    """ElementBase.transform() works on the receiver's parts, so the receiver's own overrides are skipped (documented
+    for Operation.transform([Mirror]): no inversion).  An Angle that is itself given a transformation list has its
+    axis moved like a point and its angle not negated by a Mirror; inside a Face or Operation its overrides are used."""
     if ent.name == "edge-angle" and any(t["via"] == "l" for t in tf):
         for d in discs:
             if d.cause is None and d.facts.get("edge_kind") == "angle" and d.kind in ("arc-shape", "axis-direction"):
-                d.cause = "transform-list-bypasses-angle-overrides"
+                d.cause = BYPASS
 
 
 def make_check_tf(ent: x.Ent, tkind: str):
@@ -109,7 +118,7 @@ def make_check_tf(ent: x.Ent, tkind: str):
         shared = x.shared_corners(add0)
         g0 = x.geo_of(add0, facts, "base")
         e1 = ent.build(p)
-        ap = x.apply_tf(e1, tf, facts)
+        ap = x.apply_tf(e1, tf, facts, ent.center_covariant)
         facts = tf_facts(facts, ap)
         if not guard(g0, ap.s, ctx):
             return
@@ -176,9 +185,6 @@ def make_check_copy(ent: x.Ent):
             ds, _ = x.compare(ga, gb, ap, shared, pos_tol=tol, len_tol=len_tol)
             for d in ds:
                 d.facts["stage"] = name
-                if (name == "transformed-copy" and d.cause is None and d.facts.get("curve_type") in ("LineCurve", "CircleCurve")
-                        and d.kind in ("control-points", "point-order-reversed", "edge-length")):
-                    d.cause = "analytic-curve-copy-keeps-original-function"
                 d.msg = f"[{name}] {d.msg}"
             if name == "transformed-copy":
                 mark_bypass(ent, tf, ds)
@@ -212,7 +218,7 @@ def make_check_copy(ent: x.Ent):
                                     cause="id-based-geometry-name" if only_spheres else None, undefined=new[:3], stage="write"))
 
         # independence: transform the copy, look at the original again; the transformed copy obeys the law
-        ap = x.apply_tf(cp, tf, facts)
+        ap = x.apply_tf(cp, tf, facts, ent.center_covariant)
         tfacts = tf_facts(facts, ap)
         g0b = x.geo_of(ent.realize(e0, I4, aux), facts, "base")
         stage("original-after-transforming-copy", g0, g0b, _identity(), 0.0, 0.0)
@@ -330,13 +336,11 @@ def check_curve(which, tkind):
         for k in ("pts", "disc"):
             want = rm.apply(ap.M, g0[k])
             if g1[k].shape != want.shape or x._maxerr(g1[k], want) > tol:
+                # CircleCurve.mirror flips the normal; a Mirror in a list given to the curve itself reflects its three
+                # points only (transform() works on parts), so an odd number of those runs the wrong way round
                 cause = None
-                if tkind == "copy" and which in ("line", "circle"):
-                    cause = "analytic-curve-copy-keeps-original-function"
-                elif ap.parity and which == "circle":
-                    cause = "circle-sense-under-mirror"
-                elif ap.parity and not ap.normals_unit and which in ("discrete", "linear", "splinei"):
-                    cause = "array-mirror-non-unit-normal"
+                if which == "circle" and sum(t["k"] == "mirror" and t["via"] == "l" for t in case["tf"]) % 2:
+                    cause = BYPASS
                 raise Violation("control-points", f"{'get_point' if k == 'pts' else 'discretize'} differs from the image of the "
                                 f"original curve by {x._maxerr(g1[k], want) if g1[k].shape == want.shape else 'shape'}",
                                 cause=cause, edge_kind="curve", **facts)
@@ -423,8 +427,7 @@ def check_array(tkind):
         want = rm.apply(ap.M, keep)
         tol = x.POS_TOL * (1 + float(np.max(np.abs(want))) + float(np.max(np.abs(keep))))
         if target.points.shape != want.shape or x._maxerr(np.asarray(target.points, dtype=float), want) > tol:
-            cause = "array-mirror-non-unit-normal" if (ap.parity and not ap.normals_unit) else None
-            raise Violation("control-points", f"Array points {target.points[0]}..., expected {want[0]}...", cause=cause,
+            raise Violation("control-points", f"Array points {target.points.tolist()}, expected {want.tolist()}",
                             edge_kind="array", **facts)
         if not np.array_equal(given, keep):
             raise Violation("argument-mutated", "the point list given to the constructor changed", step="constructor",
@@ -445,14 +448,14 @@ THOROUGH_X = 40
 
 CELLS = []
 for _tk in ALL_TK:
-    CELLS.append(Cell(f"C09/point/{_tk}", point_case(_tk), check_point(_tk), 60, 3000,
+    CELLS.append(Cell(f"C09/point/{_tk}", point_case(_tk), check_point(_tk), 40, 2000,
                       f"Point/Vector with projections, {_tk}: position = M(position), labels kept, constructor array untouched"))
-    CELLS.append(Cell(f"C09/array/{_tk}", array_case(_tk), check_array(_tk), 60, 3000,
+    CELLS.append(Cell(f"C09/array/{_tk}", array_case(_tk), check_array(_tk), 40, 2000,
                       f"Array of 2-6 points, {_tk}: points = M(points), arguments untouched"))
     for _w in x.CURVES:
-        CELLS.append(Cell(f"C09/curve-{_w}/{_tk}", curve_case(_w, _tk), check_curve(_w, _tk), 40, 2000,
+        CELLS.append(Cell(f"C09/curve-{_w}/{_tk}", curve_case(_w, _tk), check_curve(_w, _tk), 30, 1500,
                           f"{_w} curve, {_tk}: get_point at 9 fixed parameters, discretize(), length and a partial length"))
-CELLS.append(Cell("C09/helpers/functions", helper_case(), check_functions, 150, 6000,
+CELLS.append(Cell("C09/helpers/functions", helper_case(), check_functions, 100, 5000,
                   "functions.rotate/scale/mirror: result = R-AFFINE image, argument arrays bit-identical"))
 
 for _name, _ent in ENTS.items():
